@@ -14,7 +14,6 @@
 
 from libc.math cimport sqrt, floor
 
-from datetime import datetime
 import random
 
 import numpy as np
@@ -571,7 +570,7 @@ def _twin_surrogates_r(int n_surrogates, int N, int dim, twins,
             (n_surrogates, N, dim), dtype=DFIELD)
 
     # Initialize random number generator
-    random.seed(datetime.now())
+    random.seed()
 
     for i in range(n_surrogates):
         # Randomly choose a starting point in the original trajectory
